@@ -26,19 +26,27 @@ var bufferPool = sync.Pool{
 
 // currentTag returns the current tag in tagBuffer
 func (b *buffer) currentTag() Tag {
-	return b.tag[b.pos]
+	if b.pos < b.len {
+		return b.tag[b.pos]
+	}
+	return Tag{}
 }
 
 // nextTag returns the next tag in tagBuffer
 func (b *buffer) nextTag() Tag {
-	return b.tag[b.pos+1]
+	if b.pos+1 < b.len {
+		return b.tag[b.pos+1]
+	}
+	return Tag{}
 }
 
 // nextTag increments the position by 1
 func (b *buffer) advanceBuffer() Tag {
 	if b.pos < b.len {
 		b.pos++
-		return b.tag[b.pos]
+		if b.pos < b.len {
+			return b.tag[b.pos]
+		}
 	}
 	return Tag{}
 }
